@@ -37,6 +37,12 @@ TARGETS = [
     ("Modular<uint64_t>", "Modular", ["unsigned long"]),
     ("Modular<float>", "Modular", ["float"]),
     ("Modular<double>", "Modular", ["double"]),
+    ("Modular<int8_t>", "Modular", ["signed char"]),
+    ("Modular<uint8_t>", "Modular", ["unsigned char"]),
+    ("Modular<int16_t>", "Modular", ["short"]),
+    ("Modular<uint16_t>", "Modular", ["unsigned short"]),
+    ("ModularExtended<double>", "ModularExtended", ["double"]),
+    ("ModularExtended<float>", "ModularExtended", ["float"]),
     ("Modular<Integer>", "Modular", ["Givaro::Integer"]),
     ("Modular<ruint<7>>", "Modular", ["RecInt::ruint<7>"]),
     ("ModularBalanced<int32_t>", "ModularBalanced", ["int"]),
@@ -157,7 +163,7 @@ def split_params(ftype):
 
 def ast_cache_key():
     srcs = vf.repo_sources() + [INST, os.path.abspath(__file__)]
-    return vf.file_hash(srcs, "c16-objmodel-v9")
+    return vf.file_hash(srcs, "c16-objmodel-v12")
 
 
 def dump_ast():
@@ -168,7 +174,12 @@ def dump_ast():
     dbg = os.environ.get("C16_AST_PICKLE")          # development aid only (never set by the checks)
     if dbg and os.path.exists(dbg):
         return pickle.load(open(dbg, "rb")), "from pickle"
-    p = subprocess.run(cmd, stdout=subprocess.PIPE, stderr=subprocess.PIPE, universal_newlines=True, errors="replace")
+    try:
+        p = subprocess.run(cmd, stdout=subprocess.PIPE, stderr=subprocess.PIPE, universal_newlines=True, errors="replace", timeout=2400)
+    except subprocess.TimeoutExpired:
+        return None, "clang on the instantiation unit: [timeout after 2400s]"
+    if p.returncode < 0:
+        return None, "clang on the instantiation unit: Killed by signal %d (memory / system limits)\n%s" % (-p.returncode, p.stderr[-1000:])
     if p.returncode != 0:
         return None, "clang failed on the instantiation unit:\n" + p.stderr[-4000:]
     s = p.stdout
@@ -193,6 +204,8 @@ class Index:
         self.defn = {}          # id -> node that has the body
         self.classes = []       # complete class nodes
         self.enclosing_fn = {}
+        self._ctor_cache = {}
+        self._census = None
         for o in objs:
             self._walk(o, None)
         # out-of-line definitions: previousDecl chains
@@ -221,6 +234,73 @@ class Index:
             cls = n
         for c in kids(n):
             self._walk(c, cls)
+
+    def static_census(self):
+        """every function-local static declared in a member function / constructor DEFINITION of the dump, template patterns
+        included (a static in a constructor template, or in a member nobody instantiates, is invisible to the analysis of
+        instantiated bodies)"""
+        if self._census is not None:
+            return self._census
+        out = []
+        seen = set()
+        def statics_in(n, acc):
+            for ch in kids(n):
+                if ch.get("kind") == "VarDecl" and ch.get("storageClass") == "static":
+                    acc.append(ch)
+                if ch.get("kind") in FUNC_KINDS and ch.get("kind") != "CXXMethodDecl":
+                    continue
+                statics_in(ch, acc)
+        for i, n in self.decl.items():
+            if n.get("kind") not in FUNC_KINDS or not has_body(n):
+                continue
+            cls = self.cls_of.get(i)
+            if cls is None or not cls.get("name"):
+                continue
+            acc = []
+            statics_in(n, acc)
+            for v in acc:
+                key = (cls.get("name"), n.get("name"), v.get("name"))
+                if key in seen:
+                    continue
+                seen.add(key)
+                out.append({"cls": cls.get("name"), "fn": n.get("name"), "var": v.get("name"), "type": qt(v), "sig": qt(n)[:120],
+                            "ctor": n.get("kind") == "CXXConstructorDecl", "const": split_params(qt(n))[1],
+                            "line": n.get("loc", {}).get("line") or n.get("loc", {}).get("expansionLoc", {}).get("line"),
+                            "const_init": static_is_constant(v)})
+        self._census = out
+        return out
+
+    def ctors_of(self, c):
+        """[(constructor node, 'plain' | 'pattern' | 'instance')] of class node c; 'pattern' = the templated declaration itself"""
+        out = []
+        for m in kids(c):
+            if m.get("kind") == "CXXConstructorDecl":
+                out.append((m, "plain"))
+            elif m.get("kind") == "FunctionTemplateDecl":
+                cs = [x for x in kids(m) if x.get("kind") == "CXXConstructorDecl"]
+                for i, x in enumerate(cs):
+                    out.append((x, "pattern" if i == 0 else "instance"))
+        return out
+
+    def find_ctor(self, class_type, ctor_type):
+        """the definition of the constructor a CXXConstructExpr calls (clang's JSON gives the class type and the constructor's
+        function type, not the declaration): resolved by type"""
+        strip = lambda t: re.sub(r"\s*noexcept(\(.*\))?\s*$", "", t or "")
+        key = (class_type, ctor_type)
+        if key in self._ctor_cache:
+            return self._ctor_cache[key]
+        res = None
+        c = self.find_class_by_type(class_type) if class_type else None
+        if c is not None:
+            want = norm(strip(ctor_type))
+            for m, kind in self.ctors_of(c):
+                if kind != "pattern" and norm(strip(qt(m))) == want:
+                    b = self.body(m["id"])
+                    if b is not None:
+                        res = b
+                        break
+        self._ctor_cache[key] = res
+        return res
 
     def body(self, fid):
         n = self.defn.get(fid)
@@ -358,6 +438,14 @@ def access_path(e, fn):
                 rid = r.get("id")
                 if rid in fn.static_locals:
                     return Path("static_local", r.get("name"), members, deref, cast)
+                al = getattr(fn, "aliases", {}).get(rid)
+                if al is not None:
+                    # a local pointer / reference initialised from a path rooted at `this` or at a static (`Self_t* me =
+                    # const_cast<Self_t*>(this); me->_cache = x;`): the access goes to that object
+                    pth = Path(al.root, al.name, list(al.members) + members, deref or al.deref, cast or al.cast)
+                    if hasattr(al, "node"):
+                        pth.node = al.node
+                    return pth
                 if rid in fn.locals:
                     return Path("local", r.get("name"), members, deref, cast)
                 p = Path("global", r.get("name"), members, deref, cast)
@@ -367,6 +455,24 @@ def access_path(e, fn):
         else:
             return None
     return None
+
+
+def static_is_constant(v):
+    """a function-local static that can never differ between two executions of the program: const-qualified (or constexpr) and
+    initialised from an expression that mentions no parameter, no `this`, no other variable and calls nothing"""
+    if not (is_const_lvalue_type(qt(v)) or v.get("constexpr")):
+        return False
+    def clean(n):
+        k = n.get("kind")
+        if k in ("CXXThisExpr", "CallExpr", "CXXMemberCallExpr", "CXXOperatorCallExpr", "LambdaExpr", "CXXNewExpr", "CXXDependentScopeMemberExpr",
+                 "UnresolvedLookupExpr", "UnresolvedMemberExpr", "CXXUnresolvedConstructExpr", "DependentScopeDeclRefExpr"):
+            return False
+        if k == "DeclRefExpr" and n.get("referencedDecl", {}).get("kind") in ("ParmVarDecl", "VarDecl", "FieldDecl", "BindingDecl"):
+            return False
+        if k == "MemberExpr":
+            return False
+        return all(clean(c) for c in kids(n))
+    return all(clean(c) for c in kids(v))
 
 
 def _callee_name(n):
@@ -418,7 +524,9 @@ class FnInfo:
         self.effects = []             # dicts
         self.calls = []               # (callee id, receiver Path or None, name)
         self.unresolved_calls = 0
+        self.aliases = {}
         self._collect_locals(node)
+        self._collect_aliases(node)
         ps, self.is_const = split_params(qt(node))
         for c in kids(node):
             if c.get("kind") == "CompoundStmt":
@@ -434,9 +542,22 @@ class FnInfo:
                 self.locals.add(c["id"])
                 if c.get("storageClass") == "static" and k == "VarDecl":
                     self.static_locals[c["id"]] = (c.get("name"), qt(c))
-            if k in ("LambdaExpr",):
-                continue
-            self._collect_locals(c)
+            self._collect_locals(c)          # (lambda bodies included: their locals and statics belong to this function's analysis)
+
+    def _collect_aliases(self, n):
+        """local pointers / references bound to (a part of) `this`, a static or a global"""
+        for c in kids(n):
+            if c.get("kind") == "VarDecl" and c.get("storageClass") != "static" and c["id"] in self.locals:
+                t = qt(c).rstrip()
+                if (t.endswith("*") or t.endswith("&") or t.endswith("* const")) and kids(c):
+                    ini = kids(c)[-1]
+                    p = access_path(ini, self)
+                    if p is not None and p.root in ("this", "static_local", "global"):
+                        ref_const = t.endswith("&") and is_const_lvalue_type(t[:-1])
+                        ptr_const = (t.endswith("*") or t.endswith("* const")) and "const" in t[:t.rfind("*")]
+                        if not (ref_const or ptr_const):          # a pointer / reference to const cannot be written through
+                            self.aliases[c["id"]] = p
+            self._collect_aliases(c)
 
     # classification of one maximal access path in its context
     def _classify(self, e, parent):
@@ -494,6 +615,10 @@ class FnInfo:
 
     def _visit(self, n, parent):
         k = n.get("kind")
+        if k == "ParenExpr":
+            for c in kids(n):          # the context of (e) is the context of e:  x ^= !(Table[i])  reads Table
+                self._visit(c, parent)
+            return
         if k in ("MemberExpr", "ArraySubscriptExpr", "DeclRefExpr", "CXXThisExpr", "CXXDependentScopeMemberExpr") or \
                 (k == "UnaryOperator" and n.get("opcode") == "*") or \
                 (k in ("CStyleCastExpr", "CXXConstCastExpr") and drops_const(n)):
@@ -505,13 +630,21 @@ class FnInfo:
         if k in ("CallExpr", "CXXMemberCallExpr", "CXXOperatorCallExpr"):
             cid, recv = _callee_id(n)
             rp = access_path(recv, self) if recv is not None else None
+            if recv is not None and rp is None:
+                # a receiver that is a call result / a temporary / a conditional is an operand, not the implicit `this`
+                rp = Path("local", "<temporary>", [], False, False)
             self.calls.append((cid, rp, _callee_name(kids(n)[0]) if kids(n) else None, self._in_static_init > 0))
-        if k == "CXXConstructExpr":
-            pass
+        if k in ("CXXConstructExpr", "CXXTemporaryObjectExpr"):
+            # an object of a class of the library built here (a local domain, a temporary, a member / base initialiser): what ITS
+            # constructor does to statics / globals happens inside this function too
+            b = self.idx.find_ctor(qt(n), n.get("ctorType", {}).get("qualType", ""))
+            if b is not None and b["id"] != self.node.get("id"):
+                self.calls.append((b["id"], None, "<constructor>", self._in_static_init > 0))
         if k == "DeclStmt":
             for c in kids(n):
                 if c.get("kind") == "VarDecl" and c.get("storageClass") == "static":
-                    self.effects.append({"kind": "static_local", "var": c.get("name"), "write": True, "decl": True, "type": qt(c)})
+                    self.effects.append({"kind": "static_local", "var": c.get("name"), "write": True, "decl": True, "type": qt(c),
+                                         "const_init": static_is_constant(c)})
         guarded = k == "VarDecl" and n.get("storageClass") == "static"
         if guarded:
             self._in_static_init += 1
@@ -670,6 +803,19 @@ def class_fields(idx, c, seen=None, notes=None):
         elif x.get("kind") == "VarDecl" and x.get("storageClass") == "static":
             statics.append({"name": x.get("name"), "type": qt(x), "const": is_const_lvalue_type(qt(x)) or bool(x.get("constexpr"))})
     return fields, statics, bases
+
+
+_FIELD_NAME = {}     # FieldDecl id -> name used in the description under construction (qualified when two bases clash)
+
+
+def fkey(f):
+    return _FIELD_NAME.get(f.get("id"), f["name"])
+
+
+def rekey(mp, bf):
+    """a map keyed by the member names of a base class -> keyed by the names of the description under construction"""
+    by = {f["name"]: fkey(f) for f in bf}
+    return {by.get(k, k): v for k, v in mp.items()}
 
 
 ACCESS = {}          # id of a member function declaration -> "public" | "protected" | "private"
@@ -833,16 +979,18 @@ def copy_ctor_map(idx, an, c, ctor, fields, depth=0):
                 bf, _, _ = class_fields(idx, bc)
                 if bctor is None or (bctor.get("isImplicit") and not has_body(bctor) and not [x for x in kids(bctor) if x.get("kind") == "CXXCtorInitializer"]):
                     for f in bf:
-                        mp[f["name"]] = ("src", f["name"])       # implicit memberwise copy
+                        mp[fkey(f)] = ("src", fkey(f))       # implicit memberwise copy
                 else:
-                    mp.update(copy_ctor_map(idx, an, bc, bctor, bf, depth + 1)[0])
+                    sub = rekey(copy_ctor_map(idx, an, bc, bctor, bf, depth + 1)[0], bf)
+                    by = {f["name"]: fkey(f) for f in bf}
+                    mp.update({k: (("src", by.get(v[1], v[1])) if v[0] == "src" else v) for k, v in sub.items()})
             elif bc is not None:
                 bf, _, _ = class_fields(idx, bc)
                 for f in bf:
-                    mp[f["name"]] = ("default",)      # base sub-object default-constructed, not copied
+                    mp[fkey(f)] = ("default",)      # base sub-object default-constructed, not copied
     if implicit_undumped:
         for f in fields:
-            mp[f["name"]] = ("src", f["name"])
+            mp[fkey(f)] = ("src", fkey(f))
     # body: rc events, assignments in the body
     body_assign = assign_map_from_body(idx, an, ctor, par) if has_body(ctor) and par else {}
     for k2, v in body_assign.items():
@@ -926,10 +1074,10 @@ def assign_map_from_body(idx, an, fnnode, par):
                 if b is not None and has_body(b) and not b.get("isImplicit"):
                     bpar = is_copy_param(idx, b, bcls.get("name"))
                     if bpar:
-                        mp.update(assign_map_from_body(idx, an, b, bpar))
+                        mp.update(rekey(assign_map_from_body(idx, an, b, bpar), bf))
                 else:
                     for f in bf:
-                        mp[f["name"]] = ("src", f["name"])
+                        mp[fkey(f)] = ("src", fkey(f))
         for c in s:
             rec(c)
     for c in kids(fnnode):
@@ -954,12 +1102,13 @@ def assign_map(idx, an, c, op, fields):
             bf, _, _ = class_fields(idx, bc)
             if bop is None or bop.get("isImplicit"):
                 for f in bf:
-                    mp[f["name"]] = ("src", f["name"])
+                    mp[fkey(f)] = ("src", fkey(f))
             else:
-                mp.update(assign_map(idx, an, bc, bop, bf) or {})
+                mp.update(rekey(assign_map(idx, an, bc, bop, bf) or {}, bf))
         for x in kids(c):
             if x.get("kind") == "FieldDecl":
-                mp[x.get("name")] = ("src", x.get("name"))
+                nm = _FIELD_NAME.get(x.get("id"), x.get("name"))
+                mp[nm] = ("src", nm)
         return mp
     if not has_body(op) or par is None:
         return {}
@@ -1014,6 +1163,15 @@ def rc_events(idx, an, fnnode, par):
 def describe_class(idx, an, disp, c):
     notes = []
     fields, statics, bases = class_fields(idx, c, None, notes)
+    # two bases may declare members of the same name (Poly1PadicDom: zero/one/mOne of Poly1Dom and of IntegerDom): the later one is
+    # described under a qualified name
+    taken = set()
+    for f in fields:
+        if f["name"] in taken:
+            f["name"] = "%s::%s" % (f["cls"], f["name"])
+        taken.add(f["name"])
+    global _FIELD_NAME
+    _FIELD_NAME = {f["id"]: f["name"] for f in fields}
     fnames = [f["name"] for f in fields]
     d = {"name": disp, "clang_name": c.get("name"), "source": "clang-ast", "members": fields, "class_statics": statics,
          "bases": [b.get("name") for b in bases], "notes": notes}
@@ -1076,6 +1234,7 @@ def describe_class(idx, an, disp, c):
             meths.append((cls, b))
     reads = set()
     mdesc = []
+    benign_statics = set()
     for cls, b in meths:
         s = an.summary(b)
         fi = an.info(b)
@@ -1092,7 +1251,9 @@ def describe_class(idx, an, disp, c):
                 if e.get("path") and e["path"][0] in fnames and e["path"][0] not in mut_writes:
                     mut_writes.append(e["path"][0])
             elif e["kind"] == "static_local":
-                if e.get("decl") or e.get("write"):
+                if e.get("const_init"):
+                    benign_statics.add("%s in %s" % (e["var"], (e.get("via") or ["?"])[-1]))
+                elif e.get("decl") or e.get("write"):
                     writes.append({"k": "static_local", "member": e["var"], "how": "init" if (e.get("decl") or e.get("init")) else "static",
                                    "via": e.get("via", [])[-2:]})
             elif e["kind"] == "global_write":
@@ -1130,8 +1291,153 @@ def describe_class(idx, an, disp, c):
         m["uid"] = base if seen_uid[base] == 1 else "%s#%d" % (base, seen_uid[base])
     d["methods"] = mdesc
     d["reads"] = sorted(reads)
+    # ---- constructors: what they do to state outside the object, and how each member gets its first value
+    ctors, ceff, unanalysed = [], [], []
+    names = [x.get("name") for x in [c] + bases]
+    for cls in [c] + bases:
+        cs = idx.ctors_of(cls)
+        for m, kind in cs:
+            if kind == "pattern":
+                if not any(k2 == "instance" and (idx.body(m2["id"]) is not None) for m2, k2 in cs if m2.get("name") == m.get("name") and len(split_params(qt(m2))[0]) == len(split_params(qt(m))[0])):
+                    unanalysed.append("%s::%s  [constructor template never instantiated in harness/c16_inst.C]" % (cls.get("name"), qt(m)[:90]))
+                continue
+            if is_copy_param(idx, m, cls.get("name")) or m.get("explicitlyDefaulted") == "deleted":
+                continue
+            ps = [x for x in kids(m) if x.get("kind") == "ParmVarDecl"]
+            if len(ps) == 1 and "&&" in qt(ps[0]):
+                continue
+            b = idx.body(m["id"])
+            if b is None and kind == "instance":
+                continue          # a specialisation clang declared during overload resolution and never defined
+            if b is None:
+                if not (m.get("isImplicit") or m.get("explicitlyDefaulted")):
+                    unanalysed.append("%s::%s  [never instantiated in harness/c16_inst.C]" % (cls.get("name"), qt(m)[:90]))
+                continue
+            sm = an.summary(b)
+            ws = []
+            for e in sm["effects"]:
+                if e["kind"] == "static_local":
+                    if e.get("const_init"):
+                        benign_statics.add("%s in %s" % (e["var"], (e.get("via") or ["?"])[-1]))
+                    elif e.get("decl") or e.get("write"):
+                        ws.append({"k": "static_local", "member": e["var"], "how": "init" if (e.get("decl") or e.get("init")) else "static", "via": e.get("via", [])[-2:]})
+                elif e["kind"] == "global_write":
+                    ws.append({"k": "global", "member": e["var"], "how": "static", "via": e.get("via", [])[-2:]})
+                elif e["kind"] == "global_read":
+                    ws.append({"k": "global_read", "member": e["var"], "how": "static", "via": e.get("via", [])[-2:]})
+            uq, sk = [], set()
+            for w in ws:
+                key = (w["k"], w["member"], w["how"])
+                if key not in sk:
+                    sk.add(key); uq.append(w)
+            pl, _ = split_params(qt(b))
+            ctors.append({"cls": cls.get("name"), "params": ",".join(norm(x) for x in pl), "writes": uq, "implicit": bool(m.get("isImplicit"))})
+            ceff += [w for w in uq if w not in ceff]
+    # statics in constructor / member-function TEMPLATES and members that no use in c16_inst.C instantiates: found in the patterns
+    for st in idx.static_census():
+        if st["cls"] not in names or st["const_init"]:
+            continue
+        w = {"k": "static_local", "member": st["var"], "how": "init", "via": ["%s::%s [template pattern, line %s]" % (st["cls"], st["fn"], st["line"])]}
+        if st["ctor"]:
+            if not any(x["k"] == "static_local" and x["member"] == st["var"] for x in ceff):
+                ceff.append(w)
+                ctors.append({"cls": st["cls"], "params": "[pattern] " + st["sig"], "writes": [w], "implicit": False, "pattern": True})
+        elif not any(m_["name"] == st["fn"] and any(x["k"] == "static_local" and x["member"] == st["var"] for x in m_["writes"]) for m_ in mdesc):
+            mdesc.append({"name": st["fn"], "sig": st["sig"][:160], "params": "[pattern]", "cls": st["cls"], "mut_writes": [], "access": "public",
+                          "const": st["const"], "static": False, "reads": [], "writes": [w], "line": st["line"], "uid": "%s@pattern:%s" % (st["fn"], st["var"]), "pattern": True})
+    d["ctors"] = ctors
+    d["ctor_writes"] = ceff
+    d["ctors_unanalysed"] = unanalysed
+    d["benign_statics"] = sorted(benign_statics)
     d["param_members"] = param_members(idx, an, c, bases, fnames)
+    d["init_kinds"] = init_kinds(idx, an, c, bases, fields, d["param_members"])
+    # a member some constructor derives from its parameters (or that two constructors initialise differently) is parameter-derived
+    d["param_members"] = sorted(set(d["param_members"]) | set(k for k, v in d["init_kinds"].items() if v == "param"))
     return d
+
+
+def _expr_text(n):
+    """canonical text of an initialiser (no ids, no source locations): two constructors that initialise a member from the same
+    parameter-free expression give it the same value"""
+    if isinstance(n, dict):
+        return "(" + " ".join("%s=%s" % (k, _expr_text(v)) for k, v in sorted(n.items()) if k not in ("id", "loc", "range", "isUsed", "isReferenced", "hadMultipleCandidates")) + ")"
+    if isinstance(n, list):
+        return "[" + " ".join(_expr_text(x) for x in n) + "]"
+    return re.sub(r"0x[0-9a-f]+", "@", str(n))          # node addresses (temporaries, alias declarations, ...)
+
+
+def _init_value_text(nodes):
+    """the value an initialiser denotes, when it is a literal behind casts: `zero(0.0)`, `zero(static_cast<Element>(0))` and the default
+    member initialiser `= 0.0` are the same constant.  Anything else: its canonical expression text"""
+    def lit(n):
+        k = n.get("kind")
+        if k in ("IntegerLiteral", "FloatingLiteral", "CXXBoolLiteralExpr", "CharacterLiteral"):
+            try:
+                return "lit:%r" % float(n.get("value"))
+            except (TypeError, ValueError):
+                return "lit:%s" % n.get("value")
+        if k in ("ImplicitCastExpr", "CXXStaticCastExpr", "CStyleCastExpr", "CXXFunctionalCastExpr", "ParenExpr", "ExprWithCleanups", "ConstantExpr",
+                 "MaterializeTemporaryExpr", "InitListExpr") and len(kids(n)) == 1 and "class" not in qt(n) and "Givaro::Integer" not in qt(n):
+            return lit(kids(n)[0])
+        return None
+    if len(nodes) == 1:
+        v = lit(nodes[0])
+        if v is not None:
+            return v
+    return _expr_text(nodes)
+
+
+def init_kinds(idx, an, c, bases, fields, dep):
+    """member -> 'param' | 'const' | 'default': how the (non-copy) constructors give a member its first value.
+       param   : derived from constructor parameters (param_members), written in a constructor body, or initialised differently
+                 by two constructors of its class (the choice of the constructor is part of the construction parameters)
+       const   : every constructor of its class that mentions it uses the same parameter-free expression
+       default : no constructor mentions it (default member initialiser / default-constructed / left alone)"""
+    kinds = {}
+    for f in fields:
+        nm = f["name"]
+        if nm in dep and "::" not in nm:
+            kinds[nm] = "param"
+            continue
+        key, nm = nm, nm.split("::")[-1]
+        nsdmi = None          # default member initialiser (`const Element zero = 0.0;`): what a constructor that does not mention the member uses
+        fd = idx.decl.get(f.get("id"))
+        if fd is not None and kids(fd):
+            nsdmi = "<param>" if any(_mentions_any_param(x) for x in kids(fd)) else _init_value_text(kids(fd))
+        seen = []          # per constructor of the declaring class: None (not mentioned) | text | "<body>"
+        for cls in [c] + bases:
+            if cls.get("name") != f.get("cls"):
+                continue
+            for m, kind in idx.ctors_of(cls):
+                if kind == "pattern" or is_copy_param(idx, m, cls.get("name")) or m.get("explicitlyDefaulted") == "deleted":
+                    continue
+                ps = [x for x in kids(m) if x.get("kind") == "ParmVarDecl"]
+                if len(ps) == 1 and "&&" in qt(ps[0]):
+                    continue
+                b = idx.body(m["id"])
+                if b is None:
+                    continue
+                got = nsdmi
+                for ini in kids(b):
+                    if ini.get("kind") == "CXXCtorInitializer" and ini.get("anyInit", {}).get("name") == nm:
+                        sub = kids(ini)
+                        if sub and sub[0].get("kind") == "CXXDefaultInitExpr":
+                            got = nsdmi
+                        elif any(_mentions_any_param(x) for x in sub):
+                            got = "<param>"
+                        else:
+                            got = _init_value_text(sub)
+                if has_body(b) and any(e["kind"] in ("own_write", "plain_write") and e.get("path") and e["path"][0] == nm for e in an.summary(b)["effects"]):
+                    got = "<body>"
+                seen.append(got)
+        vals = set(seen)
+        if not vals or vals == {None} or (nsdmi not in (None, "<param>") and vals == {nsdmi}):
+            kinds[key] = "default"          # left to the default member initialiser / default construction by every constructor (or spelled out identically)
+        elif len(vals) == 1 and not (vals & {"<param>", "<body>"}):
+            kinds[key] = "const"
+        else:
+            kinds[key] = "param"
+    return kinds
 
 
 def _implicitly_deleted(c, op):
@@ -1181,6 +1487,9 @@ def scan_kronecker():
             i += 1
         mb = body[start:i]
         name = mm.group(2)
+        if name == "GFqKronecker":
+            for sm in re.finditer(r"\bstatic\s+([^;=(]+?)\s+(\w+)\s*(\(|;|=)", mb):
+                d.setdefault("ctor_writes", []).append({"k": "static_local", "member": sm.group(2), "how": "init", "via": ["GFqKronecker::GFqKronecker"]})
         if name in ("GFqKronecker", "for", "if", "while"):
             continue
         writes = []
@@ -1191,6 +1500,11 @@ def scan_kronecker():
                         "reads": reads, "writes": writes, "line": body.count("\n", 0, mm.start())})
     d["methods"] = methods
     d["reads"] = sorted(set(r for m_ in methods for r in m_["reads"]))
+    d.setdefault("ctor_writes", [])
+    d["ctors"], d["ctors_unanalysed"], d["benign_statics"] = [], ["(source scan: constructors scanned for function-local statics only)"], []
+    d["param_members"] = []
+    d["init_kinds"] = {f["name"]: "param" for f in members}
+    d["param_members"] = [f["name"] for f in members]
     return d
 
 
@@ -1280,9 +1594,18 @@ def coq_src(v):
 
 def effects_of(d, m):
     """list of (constructor, name[, via]) for one method description"""
+    return norm_effects(d, m["writes"])
+
+
+def ctor_effects_of(d):
+    """what the (non-copy) constructors of the class and of its bases do to state outside the object under construction"""
+    return [e for e in norm_effects(d, d.get("ctor_writes") or []) if e[0] != "WOwn"]
+
+
+def norm_effects(d, writes):
     types = {f["name"]: f.get("type", "") for f in d["members"]}
     out = []
-    for w in m["writes"]:
+    for w in writes:
         root = w["member"].split(".")[0]
         if w["k"] == "own":
             if any(t in types.get(root, "") for t in RANDOM_TYPES):
@@ -1333,6 +1656,37 @@ class Mirror:
                 for e in self.eff[id(m)]:
                     if e[0] in ("WOwn", "WRandom"):
                         self.written.add(e[1])
+        self.ctor_eff = ctor_effects_of(d)
+        self.params = set(d.get("param_members") or [])
+        self.kinds = d.get("init_kinds") or {}
+
+    # ---- constructors
+    def ctor_pure(self):
+        """no constructor touches a function-local static / a mutable global (documented excluded globals apart): the members after
+        construction are a function of the construction parameters only"""
+        return all(e[0] == "RExcluded" for e in self.ctor_eff)
+
+    def init_kind(self, x):
+        return {"param": "InitParam", "const": "InitConst", "default": "InitDefault"}.get(self.kinds.get(x), "InitParam")
+
+    def init_consistent(self):
+        """(i) a member outside cd_params is initialised by a parameter-free constant / by default in every constructor,
+        (ii) a member the copy constructor default-initialises is default-initialised by every constructor"""
+        for x in self.members:
+            if self.init_kind(x) == "InitParam" and x not in self.params:
+                return False
+        if self.cm is not None:
+            for x in self.members:
+                v = self.lookup(self.cm, x)
+                if v is not None and v[0] == "default" and self.init_kind(x) != "InitDefault":
+                    return False
+        return True
+
+    def init_offenders(self):
+        bad = [x for x in self.members if self.init_kind(x) == "InitParam" and x not in self.params]
+        if self.cm is not None:
+            bad += [x for x in self.members if (self.lookup(self.cm, x) or ["?"])[0] == "default" and self.init_kind(x) != "InitDefault" and x not in bad]
+        return bad
 
     def lookup(self, mp, x):
         # the Coq map lists exactly the members, in order, SrcMissing when python has no entry
@@ -1345,7 +1699,7 @@ class Mirror:
         if self.cm is None:
             return True
         v = self.lookup(self.cm, x)
-        return v is not None and (v[:2] == ["src", x] or v[0] == "default")
+        return v is not None and (v[:2] == ["src", x] or (v[0] == "default" and self.init_kind(x) == "InitDefault"))
 
     def assign_ok(self, x):
         if self.am is None:
@@ -1353,8 +1707,11 @@ class Mirror:
         v = self.lookup(self.am, x)
         return v is not None and v[:2] == ["src", x]
 
+    def ctor_ok(self, x):
+        return x not in self.params or self.ctor_pure()
+
     def stable(self, x):
-        return self.copy_ok(x) and self.assign_ok(x) and x not in self.written
+        return self.copy_ok(x) and self.assign_ok(x) and x not in self.written and self.ctor_ok(x)
 
     def rc_ok(self):
         sh = self.d.get("shared_heap_members") or []
@@ -1435,6 +1792,10 @@ class Mirror:
                 r.append(("reads-member-not-assigned", x))
             if x in self.written:
                 r.append(("reads-member-written-on-const-path", x))
+            if not self.ctor_ok(x):
+                for e in self.ctor_eff:
+                    if e[0] != "RExcluded":
+                        r.append(("constructor-" + {"WStaticLocal": "static-local", "WStaticInit": "static-local", "WGlobal": "global-write", "RGlobal": "global-read"}.get(e[0], "effect"), e[1]))
             if not self.shared_read_ok(x):
                 r.append(("reads-shared-heap-with-bad-refcount", x))
         return r
@@ -1503,6 +1864,8 @@ def emit_coq(descs, meta):
         out.append("  cd_assign := %s;" % mapstr(am))
         out.append("  cd_reads := %s;" % coq_list([coq_str(r) for r in d["reads"]]))
         out.append("  cd_params := %s;" % coq_list([coq_str(r) for r in (d.get("param_members") or [])]))
+        out.append("  cd_init := %s;" % coq_list(["(%s, %s)" % (coq_str(m), mir.init_kind(m)) for m in members]))
+        out.append("  cd_ctor_effects := %s;" % coq_list([effstr(e) for e in ctor_effects_of(d)]))
         out.append("  cd_copy_effects := %s;" % coq_list([effstr(e) for e in copy_effects_of(d)]))
         out.append("  cd_rc := %s;" % rcs)
         out.append("  cd_methods := %s" % ("[\n    " + ";\n    ".join(meths) + "]" if meths else "[]"))
@@ -1514,9 +1877,11 @@ def emit_coq(descs, meta):
 
 def emit_decide(descs):
     """gen/Decide.v: the per-class decisions, computed here and RE-COMPUTED by Coq (vm_compute) from gen/Desc.v"""
-    sc, rf, cp, rc, mu = [], [], [], [], []
+    sc, rf, cp, rc, mu, ct, ini = [], [], [], [], [], [], []
     for d in descs:
         mi = Mirror(d)
+        ct.append("(%s, %s)" % (coq_str(d["name"]), "true" if mi.ctor_pure() else "false"))
+        ini.append("(%s, %s)" % (coq_str(d["name"]), "true" if mi.init_consistent() else "false"))
         sc.append("(%s, %s)" % (coq_str(d["name"]), coq_list([coq_str(mname(m)) for m in mi.sc_offenders()])))
         rf.append("(%s, %s)" % (coq_str(d["name"]), coq_list([coq_str(mname(m)) for m in mi.rf_offenders()])))
         cp.append("(%s, %s)" % (coq_str(d["name"]), "true" if mi.copy_rf() else "false"))
@@ -1525,7 +1890,7 @@ def emit_decide(descs):
     sep = ";\n    "
     return "\n".join([
         "(* GENERATED by harness/c16_objmodel.py: the decisions per class.  Each lemma is re-decided by vm_compute on gen/Desc.v. *)",
-        "From Coq Require Import String List.", "From C16 Require Import ObjModel.", "From C16.gen Require Import Desc.", "Import ListNotations.", "Local Open Scope string_scope.", "",
+        "From Coq Require Import String List Bool.", "From C16 Require Import ObjModel.", "From C16.gen Require Import Desc.", "Import ListNotations.", "Local Open Scope string_scope.", "",
         "(* claimed const methods (not randomised) whose result is NOT shown to be a function of parameters and operands *)",
         "Definition Decide_sc_stmt : Prop := map (fun d => (cd_name d, sc_offenders d)) all_descs =\n   [" + sep.join(sc) + "].",
         "Lemma decide_sc : Decide_sc_stmt.", "Proof. vm_compute. reflexivity. Qed.", "",
@@ -1540,7 +1905,25 @@ def emit_decide(descs):
         "Lemma decide_mut : Decide_mut_stmt.", "Proof. vm_compute. reflexivity. Qed.", "",
         "(* shared heap parts are reference-counted by a protocol accepted by Refcount.refcount_safe *)",
         "Definition Decide_rc_stmt : Prop := map (fun d => (cd_name d, rc_ok_b d)) all_descs =\n   [" + sep.join(rc) + "].",
-        "Lemma decide_rc : Decide_rc_stmt.", "Proof. vm_compute. reflexivity. Qed.", ""]) + "\n"
+        "Lemma decide_rc : Decide_rc_stmt.", "Proof. vm_compute. reflexivity. Qed.", "",
+        "(* no constructor of the class (or of a base) touches a function-local static or a mutable global: construction is a function of its parameters *)",
+        "Definition Decide_ctor_stmt : Prop := map (fun d => (cd_name d, ctor_pure_b d)) all_descs =\n   [" + sep.join(ct) + "].",
+        "Lemma decide_ctor : Decide_ctor_stmt.", "Proof. vm_compute. reflexivity. Qed.", "",
+        "(* the description of the constructors is consistent: members outside cd_params are initialised by a constant / by default in every",
+        "   constructor, members the copy constructor default-initialises are default-initialised by every constructor *)",
+        "Definition Decide_init_stmt : Prop := map (fun d => (cd_name d, init_consistent_b d)) all_descs =\n   [" + sep.join(ini) + "].",
+        "Lemma decide_init : Decide_init_stmt.", "Proof. vm_compute. reflexivity. Qed.", "",
+        "(* the premises of the generic theorem C16_self_contained that are decided on the description, for every class at once",
+        "   (the classes listed here are the exceptions: a mutator offender or an inconsistent constructor description) *)",
+        "Definition decided_exceptions : list string := " + coq_list([coq_str(d["name"]) for d in descs if Mirror(d).mutator_offenders() or not Mirror(d).init_consistent()]) + ".",
+        "Definition Decide_premises_stmt : Prop :=",
+        "  forallb (fun d => orb (mem (cd_name d) decided_exceptions) (andb (init_consistent_b d) (match mutator_offenders d with [] => true | _ => false end))) all_descs = true.",
+        "Lemma decide_premises : Decide_premises_stmt.", "Proof. vm_compute. reflexivity. Qed.", "",
+        "(* ... and the statement about the described classes is not vacuous *)",
+        "Definition Decide_nonempty_stmt : Prop := exists d, In d all_descs /\\ mem (cd_name d) decided_exceptions = false.",
+        "Lemma decide_nonempty : Decide_nonempty_stmt.",
+        "Proof. exists %s. split; [unfold all_descs; repeat (try (left; reflexivity); right) | reflexivity]. Qed." % next(
+            (coq_ident(d["name"]) for d in descs if not (Mirror(d).mutator_offenders() or not Mirror(d).init_consistent())), coq_ident(descs[0]["name"])), ""]) + "\n"
 
 
 if __name__ == "__main__":
@@ -1556,6 +1939,8 @@ if __name__ == "__main__":
         print("   rf offenders:", [(mname(m), mi.eff[id(m)]) for m in mi.rf_offenders()])
         print("   randomised:", [mname(m) for m in d["methods"] if m["const"] and mi.randomized(m)])
         print("   param members:", d.get("param_members"), " mutators:", [(mname(m), m.get("mut_writes"), mi.mutator_missing(m)) for m in d["methods"] if mi.is_mutator(m)])
+        print("   ctor effects:", mi.ctor_eff, " init kinds:", d.get("init_kinds"), " init offenders:", mi.init_offenders())
+        print("   ctors:", [(x["cls"], x["params"][:60], [w["member"] for w in x["writes"]]) for x in d.get("ctors", [])], " unanalysed:", d.get("ctors_unanalysed"), " benign statics:", d.get("benign_statics"))
         print("   rc:", d.get("rc") and d["rc"]["assign_order"], "rc_ok", mi.rc_ok(), "shared:", d.get("shared_heap_members"), "copy-effects:", copy_effects_of(d))
         if d["notes"]:
             print("   notes:", d["notes"])
